@@ -515,6 +515,11 @@ func (g *Gen) Allegation() txgen.Tx {
 	}
 	signer := rep.Key
 	tags := []string{"alleg"}
+	// unusual but legal request ids (the RPC service always fills one in; a hand-built transaction need not)
+	if g.pct(g.Hostile+3, "oddid") {
+		id = []string{"", "", " ", "req1", "a_b", "\x00"}[g.Uniform(6, "oddidv")]
+		tags = append(tags, "alleg-odd-id")
+	}
 	if g.pct(g.Strange, "outsider") {
 		_, u := g.user("o")
 		signer = u
